@@ -122,28 +122,51 @@ def instr_equation(b, rel, prefix, h, m, tier):
 
 def val_equation(b, rel, prefix, digits, signed, tier, core=True):
     n = digits + (1 if signed else 0)
-    sign_setup = """
-        kani::assume(bytes[0] == b'+' || bytes[0] == b'-');""" if signed else ""
     first_digit = 1 if signed else 0
+    sign_setup = """
+        let minus: bool = kani::any();
+        bytes[0] = if minus { b'-' } else { b'+' };""" if signed else """
+        let minus = false;"""
     b.add(rel, "%s_val_%s%d" % (prefix, "signed" if signed else "digits", digits), """
-        let bytes: [u8; %(n)d] = kani::any();%(sign)s
+        // every byte is one of ten constants chosen by a symbolic digit (a byte constrained only by an assumption makes CBMC
+        // walk the multi-byte branches of the UTF-8 decoder: no verdict in 600 s even for one digit)
+        let mut bytes: [u8; %(n)d] = [b'0'; %(n)d];%(sign)s
         let mut k = %(fd)d;
         let mut want: i32 = 0;
         while k < %(n)d {
-            kani::assume(bytes[k] >= b'0' && bytes[k] <= b'9');
-            want = want * 10 + (bytes[k] - b'0') as i32;
+            let d: u8 = kani::any();
+            kani::assume(d < 10);
+            bytes[k] = match d { 0 => b'0', 1 => b'1', 2 => b'2', 3 => b'3', 4 => b'4', 5 => b'5', 6 => b'6', 7 => b'7', 8 => b'8', _ => b'9' };
+            want = want * 10 + d as i32;
             k += 1;
         }
-        if %(signed)s && bytes[0] == b'-' { want = -want; }
+        if minus { want = -want; }
         let s: &str = unsafe { std::str::from_utf8_unchecked(&bytes) };
+        // the result is bound and forgotten: letting the temporary drop runs Variant's recursive drop glue (no verdict in 600 s)
         match val(s) {
-            Ok(Variant::VInteger(got)) => assert!(got == want),
-            other => { std::mem::forget(other); assert!(false); }
+            Ok(v) => {
+                match &v { Variant::VInteger(got) => assert!(*got == want), _ => assert!(false) }
+                std::mem::forget(v);
+            }
+            Err(e) => { std::mem::forget(e); assert!(false); }
         }
-        """ % {"n": n, "sign": sign_setup, "fd": first_digit, "signed": "true" if signed else "false"},
-          unwind=n + 2, tier=tier, core=core, cost=10 * 3 ** digits,
+        """ % {"n": n, "sign": sign_setup, "fd": first_digit},
+          unwind=n + 2, tier=tier, core=core, cost=10 * 3 ** digits, stubs=[("f64::powi", "vk_powi10")],
           bounds="every decimal spelling with exactly %d digits%s" % (digits, " and a leading + or -" if signed else ""),
           functions=["rusty_basic::interpreter::built_ins::val::val"])
+
+
+POWI10 = """
+    /// 10^k for the small k a short numeral reaches (Kani over-approximates f64::powi; with the real powi reachable the
+    /// VAL harnesses got no verdict in 600 s)
+    pub fn vk_powi10(base: f64, k: i32) -> f64 {
+        assert!(base == 10.0 && k >= 0 && k <= 6);
+        let mut r = 1.0f64;
+        let mut i = 0;
+        while i < k { r *= 10.0; i += 1; }
+        r
+    }
+"""
 
 
 def arg_casts(b, rel, prefix):
